@@ -1,6 +1,7 @@
 package main
 
 import (
+	"os"
 	"strings"
 	"fmt"
 	"go/token"
@@ -110,6 +111,13 @@ func (fc *FnCtx) callMods(c *ssa.CallCommon) map[string]bool {
 		}
 		if con := fc.e.contractFor(f); con != nil && con.HasMod && hasConfined(con.Modifies) {
 			fc.confinedCallMods(con, f, c, mods)
+			return mods
+		}
+		if isExternNoContract(fc.e, f) {
+			externArgHeaps(c, mods, false)
+			if len(mods) > 0 && os.Getenv("GOVC_EXTERNW") != "" {
+				fmt.Fprintf(os.Stderr, "EXTERNW %s in %s: %v\n", fnName(f), fc.name, sortedKeys(mods))
+			}
 			return mods
 		}
 		return fc.e.modset(f)
